@@ -220,4 +220,94 @@ CLAIMS.update({
         note=_WORLD_NOTE, design="4/C26"),
 })
 
+CLAIMS.update({
+    "C01": dict(
+        technique="exact finite-Markov-chain oracles (lone vacancy; bound solute-vacancy pair with infinite dissociation "
+                  "barriers) recomputed by TLC from exactly verified certificates (BigInt.tla, Check_C02.tla); tracer "
+                  "identities by Check_Rel.tla",
+        text="Claimed for the exactly solvable sub-families: (i) L0vv = exact lone-vacancy diffusivity for any dyadic "
+             "vacancy data (multi-Wyckoff, non-zero bias correction); (ii) bound-pair limit (every omega1 class leaving "
+             "the thermodynamic shell has an infinite barrier; data given through preene2betafree with non-zero solute "
+             "reference): Lss = Lsv = exact finite pair-chain value for random binding / omega1 / omega2 levels, "
+             "Nthermo 1-2; (iii) tracer limit. General interacting inputs with dissociation involve irrational "
+             "infinite-lattice sums and are constrained only relationally (C03-C10, C24-C26).",
+        note="Trusts TLC, BigInt.tla; the bound-pair chain is built from the calculator's own omega1/omega2 networks "
+             "(their correctness is C26). L1vv has no exact value in family (ii). Tolerances 2e-6 (Bravais) to 1e-4 "
+             "(origin states) reflect the default k-mesh.",
+        design="4/C01"),
+    "C10": dict(
+        technique="lattice diffusion equation as an integer-linear form in recorded Green-function values (dyadic "
+                  "symmetrised rates), decided by TLC (Check_Rel.tla) on two k-meshes; symmetry, scaling, pole clauses",
+        text="Equation at every field point with |R|_inf <= 1 for every source/target site pair, Nmax 4 and 6 with "
+             "measured tolerances (1e-3 / 2e-4 of the source term), endpoint symmetry, space-group invariance, inverse "
+             "scaling under uniform rate scaling (1e-8), continuum pole within 8% at a quarter of the mesh period (3D).",
+        note=_REL_NOTE + " Space-group operations are taken from crys.G (sound by C18).",
+        design="4/C10"),
+    "C11": dict(
+        technique="central differences with exact step 2^-12 in beta and in every lattice strain component on a strained "
+                  "twin crystal; definitional dipole projection (Dipoles.tla, exact Reynolds average); decided by TLC "
+                  "(Check_C11.tla)",
+        text="Db = -dD/dbeta; elastodiffusion = strain derivative of the library's own diffusivity with E -> E - P:eps "
+             "for populated dipoles, dx -> (1+eps)dx, on 11-29 networks incl. general-position monoclinic/orthorhombic "
+             "sites; populated site/jump dipoles = symmetric projection on the representative carried by the group.",
+        note=_REL_NOTE, design="4/C11"),
+    "C12": dict(
+        technique="moment identities (sum rule, first moment) as exact fractions, independently assembled symmetrised "
+                  "rate matrix spectrum certified by exact traces; decided by TLC (Check_C12.tla)",
+        text="Mode rates positive and equal to non-zero eigenvalues of the symmetrised rate matrix (and all such "
+             "eigenvalues reported), compliance symmetries and PSD of each loss tensor, sum rule and first moment, on "
+             "networks connecting inequivalent site types with different prefactors.",
+        note=_REL_NOTE, design="4/C12"),
+    "C15": dict(
+        technique="TLA+ tag-dictionary model (TagMap.tla, TagMapObj.tla model-checked); TLC re-derives every scenario "
+                  "dictionary and the expected arrays/reports and compares with tags2preene(VERBOSE) (Check_C15.tla)",
+        text="Tag uniqueness and tag <-> symmetry-class binding by geometry (OpsRT orbits) for Interstitial and "
+             "VacancyMediated; scenarios with 0/1/2 members supplied per class plus bogus tags (exhaustive 3^#classes "
+             "on small structures, sampled on HCP, diamond, honeycomb, L1_2): array lengths, routed data, defaults, "
+             "LIMB back-fill, missing / duplicate / bad reports.",
+        note=_WORLD_NOTE, design="4/C15"),
+    "C20": dict(
+        technique="definitional stabilisers, orbits and character-formula dimensions (World/Sites.tla) vs pointG, Wyckoff, "
+                  "Wyckoffpos, VectorBasis, SymmTensorBasis, addbasis; TLC-generated sweep over every subgroup of the "
+                  "cubic / hexagonal / square / 2D-hexagonal holohedries (GenSiteSym.tla)",
+        text="Catalogue, random, non-primitive and sweep worlds in random orientations (incl. the tilted-axis branches): "
+             "pointG = stabiliser, Wyckoff sets = orbits, Wyckoffpos complete and duplicate free, bases of the right "
+             "dimension, invariant under every stabiliser rotation and orthonormal, addbasis keeps the group.",
+        note=_WORLD_NOTE + " Invariance is checked on fixed-point lattice coordinates to 8 units of 1e-8.",
+        design="4/C20"),
+    "C21": dict(
+        technique="definitional jump set with rational point-segment obstruction (Jumps.tla) vs jumpnetwork / "
+                  "jumpnetwork2lattice, decided by TLC (Check_C21.tla)",
+        text="Every species, cutoffs midway between exact shells 1-4, scalar and per-species obstruction radii placed in "
+             "gaps between exact distances: no jump beyond cutoff / obstructed / missing, each once, classes are single "
+             "orbits closed under group and reversal, lattice form encodes the same jumps.",
+        note=_WORLD_NOTE + " Where the obstruction reading is ambiguous (radius beyond the nearest site-atom distance) "
+                           "the network must lie between the most and least obstructive readings.",
+        design="4/C21"),
+    "C22": dict(
+        technique="mesh points as integers, Brillouin zone by the integer reciprocal metric with a TLC-verified box "
+                  "certificate, orbit-weight identity equivalent to exact integration (KMesh.tla, Check_C22.tla)",
+        text="All lattice families (incl. centred, rhombohedral, tilted, random integer lattices), even/odd/anisotropic "
+             "meshes: full mesh is the uniform grid inside the zone, reduced weights positive, sum to one, and for every "
+             "class of mesh points under the definitional point group weight*Nkpt sums to the class size.",
+        note=_WORLD_NOTE, design="4/C22"),
+    "C25": dict(
+        technique="character-formula count and integer-rotation equivariance of transported vector stars (VecStars.tla), "
+                  "expansions vs direct state-basis assembly with dyadic rates, decided by TLC (Check_C25.tla)",
+        text="Number of vector stars = sum of invariant dimensions of star stabilisers (origin states included), "
+             "orthonormality, equivariance under every definitional operation, GF / rate / escape / bias / bare "
+             "expansions on omega1 and omega2 networks, aligned and random orientations.",
+        note=_WORLD_NOTE + " The origin-state rows of the omega2-mode reference escape are a package convention and "
+                           "are not decided.",
+        design="4/C25"),
+    "C31": dict(
+        technique="definitional cluster sets modulo translation with orbits under OpsRT (Clusters.tla) vs makeclusters / "
+                  "makeTSclusters / makeVacancyClusters; recorded ==/hash tables checked against geometric identity "
+                  "(Check_C31.tla)",
+        text="Complete, disjoint orbits of all clusters up to order K within cutoffs midway between shells, exclusions, "
+             "vacancy and transition-state clusters closed under symmetry and reversal, equality/hash laws over "
+             "reorderings, translates and near misses for all four cluster kinds.",
+        note=_WORLD_NOTE, design="4/C31"),
+})
+
 NOT_YET ="check not built yet in this round (planned in DESIGN.md section 4)"
